@@ -529,6 +529,16 @@ def run_workload(spec, ctx):
         for text in long_unterminated():
             query_case(ctx, text, [[{"a": "abc def_abc"}]])
             ctx.count("long_unterminated_texts")
+        # compound queries whose operands produce many values of mixed kinds (an implementation that looks values up in
+        # a set or dict meets unhashable arrays and objects, NaN, and values equal under == but of different types)
+        for n in (5, 63, 64, 65, 200, 1000):
+            scal = list(range(n))
+            for left in ([3, [1, 2], {"a": 1}], [[1], 2.0, True, None, "3", float("nan")], [{"k": [1]}, [[]], 10 ** 30]):
+                for right in (scal, scal + [[1, 2]], [str(i) for i in range(n)], [float(i) for i in range(n)], scal + [None, True], [[i] for i in range(n)]):
+                    bigdoc = {"left": left, "right": right}
+                    for text in ("$.left[*] & $.right[*]", "$.right[*] & $.left[*]", "$.left[*] | $.right[*] & $.left[*]", "$.left[*] & $.right[*] & $.right[*]", "$..[?@ == 1] & $.right[*]"):
+                        query_case(ctx, text, [bigdoc])
+                        ctx.count("compound_queries_over_many_values_of_mixed_kinds")
         for text in long_runs():
             query_case(ctx, text, [[{"a": "abc"}]])
             ctx.count("long_runs_of_one_character_after_an_opener")
